@@ -148,8 +148,8 @@ def rule_grammar_spans(ctx):
             continue
         act = a["action"].replace(" ", "")
         syms = a["symbols"]
+        n += 1  # one per alternative that builds a node: repeating the same span in two match arms adds nothing
         for m in re.finditer(r"Meta::new\((\w+),(\w+)\)", act):
-            n += 1
             s, e = m.group(1), m.group(2)
             first = syms[0] if syms else None
             lastsym = syms[-1] if syms else None
@@ -157,7 +157,7 @@ def rule_grammar_spans(ctx):
             ctx.check(R, "grammar/%s#%d/span(%s,%s)" % (name, idx + 1, s, e), ok, "leading symbol %s, trailing symbol %s" % ((first["name"], first["text"]) if first else None, (lastsym["name"], lastsym["text"]) if lastsym else None), (GR, a["line"]))
         bad = re.findall(r"Meta::new\((?!\w+,\w+\))[^)]*\)", act)
         ctx.check(R, "grammar/%s#%d/span-arguments-are-markers" % (name, idx + 1), not bad, "Meta::new with computed arguments: %s" % bad, (GR, a["line"]))
-    ctx.floor(R, "grammar spans", n, 60)
+    ctx.floor(R, "grammar alternatives with a span", n, 54)
     # arg ranges:  args..arge  bound to @L/@R
     for name, idx, a in grammar.all_alts():
         if a["action"] and "args..arge" in a["action"].replace(" ", ""):
